@@ -1,36 +1,6 @@
 // ---------------------------------------------------------------------------------------------
 // Bloom filter policy (src/filter_policy.rs): real functions + ghost description of the probes.
 // ---------------------------------------------------------------------------------------------
-//@trait src/filter_policy.rs :: FilterPolicy
-    /// Machine-range / representation precondition of the policy (the trait impl cannot add one).
-    spec fn fp_wf(&self) -> bool;
-    /// Largest key-set size create_filter accepts without integer overflow.
-    spec fn fp_max_keys(&self) -> int;
-    /// The set of keys a filter answers "may match" for.
-    spec fn fp_matches(&self, filter: Seq<u8>, key: Seq<u8>) -> bool;
-//@tfn get_name
-//@endtfn
-//@tfn create_filter
-        requires
-            self.fp_wf(),
-            keys@.len() <= self.fp_max_keys(),
-            forall|i: int| 0 <= i < keys@.len() ==> (#[trigger] keys@[i])@.len() <= u32::MAX,
-        ensures
-            // C14, first sentence: every key of the set matches the filter built from the set
-            forall|i: int| 0 <= i < keys@.len() ==> self.fp_matches(r@, (#[trigger] keys@[i])@),
-            r@.len() < u32::MAX,
-//@endtfn
-//@tfn key_may_match
-        requires
-            self.fp_wf(),
-            key@.len() <= u32::MAX,
-            serialized_filter@.len() <= 0x2000_0000,
-        ensures
-            r matches Ok(b) ==> b == self.fp_matches(serialized_filter@, key@),
-            r is Err <==> serialized_filter@.len() < 2,
-//@endtfn
-//@endtrait
-//@enum src/filter_policy.rs :: FilterPolicyError derive: Debug
 //@struct src/filter_policy.rs :: BloomFilterPolicy derive: Debug
 
 #[verifier::opaque]
